@@ -348,6 +348,10 @@ def run(pid, tier, replay=None):
         return rc_
     from checks import bigstore
     bigstore.stage(chk, quick, rng, pid)
+    from checks import wireforms
+    rc_ = wireforms.stage(chk, quick, rng, pid)
+    if rc_:
+        return rc_
     sk.apply_cfg(cfg)
     chk.extra["concurrent_hand_overs_during_a_flush"] = info.pop("concurrent_hand_overs", 0)
     if lock_traces:
